@@ -53,9 +53,14 @@ def parse(text):
         return None
 
 
+KEEP_SUBMODULES = False
+
+
 def printed_name(path):
     """the name `serialize_to_python` writes for a class with this dotted path"""
     cls = path.rsplit('.', 1)[1] if '.' in path else path
+    if KEEP_SUBMODULES and path.startswith('django.db.models.'):
+        return 'models.' + path[len('django.db.models.'):]
     return ('models.' + cls) if path.startswith('django.db.models') else cls
 
 
